@@ -32,8 +32,11 @@ def main():
         res["demo_with_change_tail"] = out.strip().splitlines()[-3:]
         checks = {}
         env2 = dict(os.environ, VERIF_NO_EVIDENCE="1")
+        import concurrent.futures
+        with concurrent.futures.ThreadPoolExecutor(max_workers=16) as ex:
+            outs = dict(zip(sorted(PROPS), ex.map(lambda pid: sh("cd %s && ./check %s" % (HERE, pid), env=env2), sorted(PROPS))))
         for pid in sorted(PROPS):
-            rc, out = sh("cd %s && ./check %s" % (HERE, pid), env=env2)
+            rc, out = outs[pid]
             rules = sorted({ln.split("[", 1)[1].split("]", 1)[0].split("/", 1)[1] for ln in out.splitlines()
                             if "] " in ln and "[" in ln and ln.split("[", 1)[1].startswith(pid + "/")})
             checks[pid] = {"rc": rc, "rules": rules}
